@@ -22,40 +22,84 @@ from .model import dotted, inline_locals, unparse
 _IDENT = re.compile(r"[A-Za-z_][A-Za-z_0-9]*(?:\.[A-Za-z_][A-Za-z_0-9]*)*")
 
 
-def _txt(fnode, e):
-    return unparse(inline_locals(fnode, e))
+GHOST = "__entry"  # `p__entry` in an atom = the value parameter p had when the function was entered
 
 
-def canon_compare(fnode, left, op, right):
-    """One comparison -> (key, truth) or None."""
-    l, r = _txt(fnode, left), _txt(fnode, right)
+class _Canon(ast.NodeTransformer):
+    """Ghost names for parameters that still hold their entry value; module-level numeric/str constants by value."""
+
+    def __init__(self, names, fi):
+        self.names = set(names)
+        self.fi = fi
+
+    def visit_Name(self, node):
+        if isinstance(node.ctx, ast.Load) and node.id in self.names:
+            return ast.copy_location(ast.Name(id=node.id + GHOST, ctx=ast.Load()), node)
+        return self._const(node)
+
+    def visit_Attribute(self, node):
+        r = self._const(node)
+        if r is not node:
+            return r
+        self.generic_visit(node)
+        return node
+
+    def _const(self, node):
+        fi = self.fi
+        if fi is None or not isinstance(node.ctx, ast.Load):
+            return node
+        d = dotted(node)
+        if d is None or d.split(".")[0] in ("self", "cls"):
+            return node
+        try:
+            r = fi.module.repo.resolve_dotted(fi.module, d)
+            if r and r[0] in ("global", "classattr"):
+                v = fi.module.repo.const_value(fi.module, node)
+                if isinstance(v, (int, str, bytes)) and not isinstance(v, bool):
+                    return ast.copy_location(ast.Constant(value=v), node)
+        except Exception:
+            pass
+        return node
+
+
+def _txt(fi, e, ghosts=()):
+    from .model import clone
+    e = inline_locals(fi.node, e)
+    e = _Canon(ghosts, fi).visit(clone(e))
+    return unparse(e)
+
+
+def canon_compare(fi, left, op, right, ghosts=()):
+    """One comparison -> ((op, a, b), truth) or None.  Ordered operators are reduced to '<', '==' / 'is' have sorted sides."""
+    l, r = _txt(fi, left, ghosts), _txt(fi, right, ghosts)
     t = type(op)
     if t is ast.Lt:
-        return ("%s < %s" % (l, r), True)
+        return (("<", l, r), True)
     if t is ast.Gt:
-        return ("%s < %s" % (r, l), True)
+        return (("<", r, l), True)
     if t is ast.GtE:
-        return ("%s < %s" % (l, r), False)
+        return (("<", l, r), False)
     if t is ast.LtE:
-        return ("%s < %s" % (r, l), False)
+        return (("<", r, l), False)
     if t in (ast.Eq, ast.NotEq):
         a, b = sorted((l, r))
-        return ("%s == %s" % (a, b), t is ast.Eq)
+        return (("==", a, b), t is ast.Eq)
     if t in (ast.Is, ast.IsNot):
         a, b = sorted((l, r))
-        return ("%s is %s" % (a, b), t is ast.Is)
+        return (("is", a, b), t is ast.Is)
     if t in (ast.In, ast.NotIn):
-        return ("%s in %s" % (l, r), t is ast.In)
+        return (("in", l, r), t is ast.In)
     return None
 
 
-def atom_facts(fnode, expr, truth):
-    """Facts implied by leaf condition `expr` having value `truth` (list of (key, truth))."""
+def atom_facts(fi, expr, truth, ghosts=()):
+    """Facts implied by leaf condition `expr` having value `truth` (list of (key, truth)); keys are tuples
+    (op, operand text...) with op in '<', '==', 'is', 'in', 'truth'."""
     if isinstance(expr, ast.Compare):
         pairs = []
         left = expr.left
         for op, right in zip(expr.ops, expr.comparators):
-            c = canon_compare(fnode, left, op, right)
+            c = canon_compare(fi, left, op, right, ghosts)
             if c is None:
                 return []
             pairs.append(c)
@@ -66,46 +110,79 @@ def atom_facts(fnode, expr, truth):
             k, t = pairs[0]
             return [(k, not t)]
         return []  # a failed chain says only that one link failed
-    e = inline_locals(fnode, expr)
-    if e is not expr and not isinstance(e, (ast.Name, ast.Attribute, ast.Call, ast.Subscript, ast.Constant)):
+    e = inline_locals(fi.node, expr)
+    if isinstance(e, (ast.BoolOp, ast.Compare)) or (isinstance(e, ast.UnaryOp) and isinstance(e.op, ast.Not)):
         # the temporary stood for a compound condition: decompose that
-        out = []
-
         def atom(x, tr, st):
             st = set(st)
-            st.update(atom_facts(fnode, x, tr))
+            st.update(atom_facts(fi, x, tr, ghosts))
             return frozenset(st)
         r = refine_bool(e, truth, frozenset(), atom, lambda a, b: a & b)
-        return sorted(r) if r else out
-    return [(unparse(e), truth)]
+        return sorted(r, key=repr) if r else []
+    if isinstance(e, ast.Call) and dotted(e.func) == "bool" and len(e.args) == 1:
+        return atom_facts(fi, e.args[0], truth, ghosts)
+    return [(("truth", _txt(fi, expr, ghosts)), truth)]
 
 
 def mentions(key, name):
-    """Does the atom text `key` read the variable / attribute path `name`?"""
-    for m in _IDENT.finditer(key):
-        tok = m.group(0)
-        if tok == name or tok.startswith(name + "."):
-            return True
+    """Does the atom `key` read the variable / attribute path `name`?"""
+    for part in key[1:]:
+        for m in _IDENT.finditer(part):
+            tok = m.group(0)
+            if tok == name or tok.startswith(name + "."):
+                return True
     return False
 
 
+CAP = 16  # alternatives kept apart per program point; beyond that they are merged into their common facts
+
+
+def _norm(alts):
+    """Drop alternatives that are implied by a weaker one (a superset of another alternative's facts adds nothing)."""
+    alts = set(alts)
+    out = set()
+    for a in alts:
+        if not any(b < a for b in alts):
+            out.add(a)
+    if len(out) > CAP:
+        common = None
+        for a in out:
+            common = a if common is None else common & a
+        return frozenset([common])
+    return frozenset(out)
+
+
 class Facts:
+    """State = set of alternatives, each a set of (atom, truth): "one of these conjunctions holds here"."""
+
     def __init__(self, fi):
         self.fi = fi
         self.fnode = fi.node
         self.cfg = cfg_of(fi.node)
         fnode = self.fnode
+        # a parameter still holds its entry value at a node that no assignment to it can reach
+        params = [a.arg for a in ast.walk(fnode.args) if isinstance(a, ast.arg) and a.arg not in ("self", "cls")]
+        assigns = {p: [n.id for n in self.cfg.nodes if p in self._killed(n)] for p in params}
+        self._ghost_memo = {}
+        cur = [None]
+
+        def ghosts_at(nid):
+            if nid not in self._ghost_memo:
+                self._ghost_memo[nid] = tuple(p for p in params if not any(a == nid or self.cfg.can_reach(a, nid) for a in assigns[p]))
+            return self._ghost_memo[nid]
+        self.ghosts_at = ghosts_at
 
         def atom(expr, truth, state):
-            new = set(state)
-            for k, t in atom_facts(fnode, expr, truth):
-                if (k, not t) in new:
-                    return None  # contradicts what is known: this outcome is infeasible here
-                new.add((k, t))
-            return frozenset(new)
+            facts = atom_facts(fi, expr, truth, ghosts_at(cur[0]) if cur[0] is not None else ())
+            out = set()
+            for alt in state:
+                if any((k, not t) in alt for k, t in facts):
+                    continue  # contradicts what is known on this alternative
+                out.add(frozenset(alt | set(facts)))
+            return _norm(out) if out else None
 
         def join(a, b):
-            return a & b
+            return _norm(a | b)
 
         def transfer(node, state):
             if state is None:
@@ -113,15 +190,16 @@ class Facts:
             killed = self._killed(node)
             if not killed:
                 return state
-            return frozenset((k, t) for (k, t) in state if not any(mentions(k, nm) for nm in killed))
+            return _norm(frozenset((k, t) for (k, t) in alt if not any(mentions(k, nm) for nm in killed)) for alt in state)
 
         def refine(node, label, state):
             if state is None:
                 return None
             if node.kind == "test" and isinstance(label, bool):
+                cur[0] = node.id
                 return refine_bool(node.ast, label, state, atom, join)
             return state
-        self.ins, self.outs = forward(self.cfg, frozenset(), transfer, join, refine)
+        self.ins, self.outs = forward(self.cfg, frozenset([frozenset()]), transfer, join, refine)
 
     @staticmethod
     def _killed(node):
@@ -165,27 +243,54 @@ class Facts:
         return out
 
     # ------------------------------------------------------------------ queries
+    def alts(self, nid):
+        """The alternatives at node `nid` (list of fact sets); None if unreachable."""
+        st = self.ins.get(nid)
+        return None if st is None else list(st)
+
     def at(self, nid):
-        """Facts holding whenever node `nid` is reached; None if it is unreachable."""
-        return self.ins.get(nid)
+        """Facts holding on every path reaching node `nid`; None if it is unreachable."""
+        st = self.ins.get(nid)
+        if st is None:
+            return None
+        common = None
+        for a in st:
+            common = a if common is None else common & a
+        return common if common is not None else frozenset()
+
+    def nid_of(self, where):
+        if isinstance(where, int):
+            return where
+        for i in self.cfg.nodes_of(where):
+            if i in self.ins:
+                return i
+        for i in self.cfg.node_of_expr(where) if hasattr(self.cfg, "node_of_expr") else []:
+            if i in self.ins:
+                return i
+        return None
 
     def at_stmt(self, stmt):
-        ids = self.cfg.nodes_of(stmt)
-        for i in ids:
-            if i in self.ins:
-                return self.ins[i]
-        return None
+        i = self.nid_of(stmt)
+        return None if i is None else self.at(i)
 
     def holds(self, where, key, truth=True):
         f = self.at_stmt(where) if isinstance(where, ast.AST) else self.at(where)
         return f is not None and (key, truth) in f
+
+    def one_of(self, where, options):
+        """On every path reaching `where`, at least one of the (key, truth) options is known."""
+        i = self.nid_of(where)
+        st = self.ins.get(i) if i is not None else None
+        if st is None:
+            return False
+        return all(any(o in alt for o in options) for alt in st)
 
     def raises(self):
         """[(cfg node, exception class name or None, facts)] for every reachable raise statement."""
         out = []
         for n in self.cfg.nodes:
             if n.kind == "raise_stmt" or (n.kind == "stmt" and isinstance(n.stmt, ast.Raise)):
-                f = self.ins.get(n.id)
+                f = self.at(n.id)
                 if f is None:
                     continue
                 exc = n.stmt.exc
@@ -209,9 +314,9 @@ class Facts:
 
     def keys(self):
         out = set()
-        for f in self.ins.values():
-            if f:
-                out |= {k for k, _t in f}
+        for st in self.ins.values():
+            for alt in st or ():
+                out |= {k for k, _t in alt}
         return out
 
 
